@@ -3115,7 +3115,9 @@ def update_working_tree(
                             f"Please commit your changes or stash them before you switch branches."
                         )
 
-    # Apply the changes
+    # Apply the changes: every removal first, so that a directory whose
+    # entries all go away has gone itself by the time a file or link of the
+    # same name is written (changes arrive in path order, "d" before "d/b").
     for change in changes:
         if change.type in (CHANGE_DELETE, CHANGE_RENAME):
             # Remove file/directory
@@ -3149,6 +3151,7 @@ def update_working_tree(
 
                 _transition_to_absent(repo, path, full_path, delete_stat, index)
 
+    for change in changes:
         if change.type in (
             CHANGE_ADD,
             CHANGE_MODIFY,
